@@ -580,6 +580,22 @@ Proof.
 Qed.
 
 (** no operation of any history reads outside the table or exhausts the fuel of a search *)
+(** the answers to a whole CONTINUATION of calls (each one issued on the object the previous ones left behind) *)
+Fixpoint trace (ops : list (op T)) (st : state T) : list (out T) :=
+  match ops with [] => [] | q :: r => snd (step st q) :: trace r (fst (step st q)) end.
+Lemma trace_sim ops : forall s1 s2, sim s1 s2 -> trace ops s1 = trace ops s2.
+Proof.
+  induction ops as [|q r IH]; intros s1 s2 Hs; [reflexivity|]. cbn [trace].
+  destruct (step_sim s1 s2 q Hs) as (A & B & _). rewrite A. f_equal. apply IH. exact B.
+Qed.
+Theorem continuation_free h rest :
+  trace rest (run h (init Ops)) = trace rest (fresh (prefactor_after Ops h (n1 Ops))).
+Proof.
+  assert (Hi : inv (init Ops)) by apply inv_fresh.
+  apply trace_sim. split; [apply inv_run; auto|]. split; [apply inv_fresh|].
+  rewrite prefactor_run by auto. reflexivity.
+Qed.
+
 Theorem no_oob_no_fuel st q : inv st -> snd (step st q) <> @OOOB T /\ snd (step st q) <> @OFuel T.
 Proof. intros H. apply (step_sim st st q (sim_refl st H)). Qed.
 End Queries.
@@ -726,6 +742,183 @@ Proof.
   replace (j <? Ny) with true by (symmetry; apply Z.ltb_lt; lia). reflexivity.
 Qed.
 
+(** *** Global_Minimum / Global_Maximum of Interpolation_2D: the first smallest / largest entry of the whole table *)
+Lemma zrange_spec n i : In i (zrange n) <-> 0 <= i < n.
+Proof.
+  unfold zrange. rewrite in_map_iff. split.
+  - intros (k & <- & Hk). apply in_seq in Hk. lia.
+  - intros H. exists (Z.to_nat i). split; [lia|]. apply in_seq. lia.
+Qed.
+
+Lemma min_from_spec : forall l cur,
+  le Ops (min_from Ops cur l) cur /\ (forall x, In x l -> le Ops (min_from Ops cur l) x) /\
+  (min_from Ops cur l = cur \/ In (min_from Ops cur l) l).
+Proof.
+  induction l as [|v r IH]; intros cur; cbn [min_from].
+  - split; [apply le_refl; auto|]. split; [intros x []|left; reflexivity].
+  - destruct (nltb Ops v cur) eqn:E.
+    + destruct (IH v) as (H1 & H2 & H3). split; [|split].
+      * apply (le_trans Ops OL _ v); auto. apply lt_le; auto.
+      * intros x [<-|Hx]; auto.
+      * right. destruct H3 as [->|H3]; [left; reflexivity|right; exact H3].
+    + destruct (IH cur) as (H1 & H2 & H3). split; [exact H1|split].
+      * intros x [<-|Hx]; auto. apply (le_trans Ops OL _ cur); auto.
+      * destruct H3 as [H3|H3]; [left; exact H3|right; right; exact H3].
+Qed.
+
+Lemma max_from_spec : forall l cur,
+  le Ops cur (max_from Ops cur l) /\ (forall x, In x l -> le Ops x (max_from Ops cur l)) /\
+  (max_from Ops cur l = cur \/ In (max_from Ops cur l) l).
+Proof.
+  induction l as [|v r IH]; intros cur; cbn [max_from].
+  - split; [apply le_refl; auto|]. split; [intros x []|left; reflexivity].
+  - destruct (nltb Ops cur v) eqn:E.
+    + destruct (IH v) as (H1 & H2 & H3). split; [|split].
+      * apply (le_trans Ops OL _ v); auto. apply lt_le; auto.
+      * intros x [<-|Hx]; auto.
+      * right. destruct H3 as [->|H3]; [left; reflexivity|right; exact H3].
+    + destruct (IH cur) as (H1 & H2 & H3). split; [exact H1|split].
+      * intros x [<-|Hx]; auto. apply (le_trans Ops OL _ cur); auto.
+      * destruct H3 as [H3|H3]; [left; exact H3|right; right; exact H3].
+Qed.
+
+Definition least (l : list T) (m : T) : Prop := In m l /\ forall x, In x l -> le Ops m x.
+Definition greatest (l : list T) (m : T) : Prop := In m l /\ forall x, In x l -> le Ops x m.
+
+Lemma min_element_spec l : l <> [] -> exists m, min_element Ops l = Ok m /\ least l m.
+Proof.
+  destruct l as [|a r]; [congruence|]. intros _. exists (min_from Ops a r). split; [reflexivity|].
+  destruct (min_from_spec r a) as (H1 & H2 & H3). split.
+  - destruct H3 as [->|H3]; [left; reflexivity|right; exact H3].
+  - intros x [<-|Hx]; auto.
+Qed.
+Lemma max_element_spec l : l <> [] -> exists m, max_element Ops l = Ok m /\ greatest l m.
+Proof.
+  destruct l as [|a r]; [congruence|]. intros _. exists (max_from Ops a r). split; [reflexivity|].
+  destruct (max_from_spec r a) as (H1 & H2 & H3). split.
+  - destruct H3 as [->|H3]; [left; reflexivity|right; exact H3].
+  - intros x [<-|Hx]; auto.
+Qed.
+
+Lemma map_res_ok {A B : Type} (f : A -> res B) (P : A -> B -> Prop) : forall l,
+  (forall a, In a l -> exists b, f a = Ok b /\ P a b) ->
+  exists bs, map_res f l = Ok bs /\ Forall2 P l bs.
+Proof.
+  induction l as [|a r IH]; intros H; cbn [map_res].
+  - exists []. split; [reflexivity|constructor].
+  - destruct (H a (or_introl eq_refl)) as (b & Eb & Pb). rewrite Eb. cbn [rbind].
+    destruct IH as (bs & Ebs & Pbs); [intros a' Ha'; apply H; right; exact Ha'|].
+    rewrite Ebs. cbn [rbind]. exists (b :: bs). split; [reflexivity|constructor; auto].
+Qed.
+Lemma Forall2_In_l {A B : Type} (P : A -> B -> Prop) l bs : Forall2 P l bs ->
+  forall a, In a l -> exists b, In b bs /\ P a b.
+Proof.
+  induction 1 as [|a0 b0 l' bs' H0 H IH]; intros a []; subst.
+  - exists b0. split; [left; reflexivity|exact H0].
+  - destruct (IH a H1) as (b & Hb & Pb). exists b. split; [right; exact Hb|exact Pb].
+Qed.
+Lemma Forall2_In_r {A B : Type} (P : A -> B -> Prop) l bs : Forall2 P l bs ->
+  forall b, In b bs -> exists a, In a l /\ P a b.
+Proof.
+  induction 1 as [|a0 b0 l' bs' H0 H IH]; intros b []; subst.
+  - exists a0. split; [left; reflexivity|exact H0].
+  - destruct (IH b H1) as (a & Ha & Pa). exists a. split; [right; exact Ha|exact Pa].
+Qed.
+
+Definition attained (m : T) : Prop := exists i j, 0 <= i < Nx /\ 0 <= j < Ny /\ m = fv i j.
+
+Lemma rows2_In row : In row (rows2 Nx Ny fv) <-> exists i, 0 <= i < Nx /\ row = map (fun j => fv i j) (zrange Ny).
+Proof.
+  unfold rows2. rewrite in_map_iff. split.
+  - intros (i & <- & Hi). exists i. split; [apply zrange_spec; exact Hi|reflexivity].
+  - intros (i & Hi & ->). exists i. split; [reflexivity|apply zrange_spec; exact Hi].
+Qed.
+Lemma row_In i x : In x (map (fun j => fv i j) (zrange Ny)) <-> exists j, 0 <= j < Ny /\ x = fv i j.
+Proof.
+  rewrite in_map_iff. split.
+  - intros (j & <- & Hj). exists j. split; [apply zrange_spec; exact Hj|reflexivity].
+  - intros (j & Hj & ->). exists j. split; [reflexivity|apply zrange_spec; exact Hj].
+Qed.
+
+Theorem glob2_spec mx p : exists f_min f_max,
+  glob2 Ops Nx Ny fv mx p = Ok ((if mx then nmax Ops else nmin Ops) (nmul Ops p f_min) (nmul Ops p f_max)) /\
+  attained f_min /\ (forall i j, 0 <= i < Nx -> 0 <= j < Ny -> le Ops f_min (fv i j)) /\
+  attained f_max /\ (forall i j, 0 <= i < Nx -> 0 <= j < Ny -> le Ops (fv i j) f_max).
+Proof.
+  destruct HNx as [HNx2 _]. destruct HNy as [HNy2 _].
+  assert (Rne : forall row, In row (rows2 Nx Ny fv) -> row <> []).
+  { intros row Hr E. apply rows2_In in Hr. destruct Hr as (i & Hi & ->).
+    assert (In (fv i 0) (map (fun j => fv i j) (zrange Ny))) by (apply row_In; exists 0; split; [lia|reflexivity]).
+    rewrite E in H. contradiction. }
+  assert (R0 : In (map (fun j => fv 0 j) (zrange Ny)) (rows2 Nx Ny fv)) by (apply rows2_In; exists 0; split; [lia|reflexivity]).
+  destruct (map_res_ok (min_element Ops) least (rows2 Nx Ny fv)) as (mins & Emin & Fmin).
+  { intros row Hr. apply min_element_spec. apply Rne; exact Hr. }
+  destruct (map_res_ok (max_element Ops) greatest (rows2 Nx Ny fv)) as (maxs & Emax & Fmax).
+  { intros row Hr. apply max_element_spec. apply Rne; exact Hr. }
+  assert (Nmin : mins <> []).
+  { intros E. destruct (Forall2_In_l _ _ _ Fmin _ R0) as (b & Hb & _). rewrite E in Hb. contradiction. }
+  assert (Nmax : maxs <> []).
+  { intros E. destruct (Forall2_In_l _ _ _ Fmax _ R0) as (b & Hb & _). rewrite E in Hb. contradiction. }
+  destruct (min_element_spec mins Nmin) as (f_min & Efmin & (Imin & Lmin)).
+  destruct (max_element_spec maxs Nmax) as (f_max & Efmax & (Imax & Lmax)).
+  exists f_min, f_max. unfold glob2. rewrite Emin, Emax. cbn [rbind]. rewrite Efmin, Efmax. cbn [rbind].
+  split; [reflexivity|]. split; [|split; [|split]].
+  - destruct (Forall2_In_r _ _ _ Fmin _ Imin) as (row & Hr & (Hin & _)).
+    apply rows2_In in Hr. destruct Hr as (i & Hi & ->). apply row_In in Hin. destruct Hin as (j & Hj & ->).
+    exists i, j. auto.
+  - intros i j Hi Hj.
+    assert (Hr : In (map (fun j => fv i j) (zrange Ny)) (rows2 Nx Ny fv)) by (apply rows2_In; exists i; auto).
+    destruct (Forall2_In_l _ _ _ Fmin _ Hr) as (b & Hb & (_ & Lb)).
+    apply (le_trans Ops OL _ b); [apply Lmin; exact Hb|apply Lb; apply row_In; exists j; auto].
+  - destruct (Forall2_In_r _ _ _ Fmax _ Imax) as (row & Hr & (Hin & _)).
+    apply rows2_In in Hr. destruct Hr as (i & Hi & ->). apply row_In in Hin. destruct Hin as (j & Hj & ->).
+    exists i, j. auto.
+  - intros i j Hi Hj.
+    assert (Hr : In (map (fun j => fv i j) (zrange Ny)) (rows2 Nx Ny fv)) by (apply rows2_In; exists i; auto).
+    destruct (Forall2_In_l _ _ _ Fmax _ Hr) as (b & Hb & (_ & Lb)).
+    apply (le_trans Ops OL _ b); [apply Lb; apply row_In; exists j; auto|apply Lmax; exact Hb].
+Qed.
+
+Lemma nmin_le a b : le Ops (nmin Ops a b) a /\ le Ops (nmin Ops a b) b /\ (nmin Ops a b = a \/ nmin Ops a b = b).
+Proof.
+  unfold nmin. destruct (nltb Ops b a) eqn:E.
+  - split; [apply lt_le; auto|]. split; [apply le_refl; auto|right; reflexivity].
+  - split; [apply le_refl; auto|]. split; [exact E|left; reflexivity].
+Qed.
+Lemma nmax_ge a b : le Ops a (nmax Ops a b) /\ le Ops b (nmax Ops a b) /\ (nmax Ops a b = a \/ nmax Ops a b = b).
+Proof.
+  unfold nmax. destruct (nltb Ops a b) eqn:E.
+  - split; [apply lt_le; auto|]. split; [apply le_refl; auto|right; reflexivity].
+  - split; [apply le_refl; auto|]. split; [exact E|left; reflexivity].
+Qed.
+
+(** "all outputs change by exactly the stated factor", for the extrema: when the multiplication by the prefactor p is
+    monotone (p >= 0) or antitone (p <= 0) — true of IEEE multiplication, rounding included — Global_Minimum is the
+    least and Global_Maximum the greatest of the products p * f[i][j], and it is one of these products. *)
+Theorem glob2_scaled mx p :
+  ((forall a b, le Ops a b -> le Ops (nmul Ops p a) (nmul Ops p b)) \/
+   (forall a b, le Ops a b -> le Ops (nmul Ops p b) (nmul Ops p a))) ->
+  exists v, glob2 Ops Nx Ny fv mx p = Ok v /\
+    (exists i j, 0 <= i < Nx /\ 0 <= j < Ny /\ v = nmul Ops p (fv i j)) /\
+    (forall i j, 0 <= i < Nx -> 0 <= j < Ny ->
+       if mx then le Ops (nmul Ops p (fv i j)) v else le Ops v (nmul Ops p (fv i j))).
+Proof.
+  intros Hm. destruct (glob2_spec mx p) as (m & M & E & (im & jm & Him & Hjm & Em) & Lm & (iM & jM & HiM & HjM & EM) & LM).
+  eexists. split; [exact E|]. split.
+  - destruct mx.
+    + destruct (nmax_ge (nmul Ops p m) (nmul Ops p M)) as (_ & _ & [->| ->]);
+        [exists im, jm; rewrite Em; auto|exists iM, jM; rewrite EM; auto].
+    + destruct (nmin_le (nmul Ops p m) (nmul Ops p M)) as (_ & _ & [->| ->]);
+        [exists im, jm; rewrite Em; auto|exists iM, jM; rewrite EM; auto].
+  - intros i j Hi Hj. destruct mx.
+    + destruct (nmax_ge (nmul Ops p m) (nmul Ops p M)) as (A & B & _). destruct Hm as [Hm|Hm].
+      * apply (le_trans Ops OL _ (nmul Ops p M)); [apply Hm; apply LM; auto|exact B].
+      * apply (le_trans Ops OL _ (nmul Ops p m)); [apply Hm; apply Lm; auto|exact A].
+    + destruct (nmin_le (nmul Ops p m) (nmul Ops p M)) as (A & B & _). destruct Hm as [Hm|Hm].
+      * apply (le_trans Ops OL _ (nmul Ops p m)); [exact A|apply Hm; apply Lm; auto].
+      * apply (le_trans Ops OL _ (nmul Ops p M)); [exact B|apply Hm; apply LM; auto].
+Qed.
+
 Lemma interpolate2_sim a b x y : sim2 a b ->
   (exists a' b' r, interpolate2 a x y = Ok (a', r) /\ interpolate2 b x y = Ok (b', r) /\
                    sim2 a' b' /\ pf2 a' = pf2 a) \/
@@ -766,6 +959,10 @@ Proof.
     split; [reflexivity|].
     split; [split; [split; assumption|split; [split; assumption|exact Hp]]|].
     split; [reflexivity|split; discriminate].
+  - destruct (glob2_spec false (pf2 a)) as (m & M & E & _). rewrite <- (proj2 (proj2 Hs)). rewrite E. cbn.
+    split; [reflexivity|]. split; [exact Hs|]. split; [reflexivity|split; discriminate].
+  - destruct (glob2_spec true (pf2 a)) as (m & M & E & _). rewrite <- (proj2 (proj2 Hs)). rewrite E. cbn.
+    split; [reflexivity|]. split; [exact Hs|]. split; [reflexivity|split; discriminate].
 Qed.
 
 Lemma inv2_init : inv2 (init2 Ops).
@@ -792,6 +989,20 @@ Proof.
   apply step2_sim. split; auto. split; [apply inv2_init|]. exact Hp.
 Qed.
 
+Fixpoint trace2 (ops : list (op2 T)) (st : state2 T) : list (out2 T) :=
+  match ops with [] => [] | q :: r => snd (step2 st q) :: trace2 r (fst (step2 st q)) end.
+Lemma trace2_sim ops : forall a b, sim2 a b -> trace2 ops a = trace2 ops b.
+Proof.
+  induction ops as [|q r IH]; intros a b Hs; [reflexivity|]. cbn [trace2].
+  destruct (step2_sim a b q Hs) as (A & B & _). rewrite A. f_equal. apply IH. exact B.
+Qed.
+Theorem continuation_free2 h rest :
+  trace2 rest (run2 h (init2 Ops)) = trace2 rest (mkState2 (init Ops) (init Ops) (prefactor2_after h (n1 Ops))).
+Proof.
+  destruct (run2_inv_pf h (init2 Ops) inv2_init) as (Hi & Hp).
+  apply trace2_sim. split; auto. split; [apply inv2_init|]. exact Hp.
+Qed.
+
 Theorem no_oob_no_fuel2 h q :
   snd (step2 (run2 h (init2 Ops)) q) <> @O2OOB T /\ snd (step2 (run2 h (init2 Ops)) q) <> @O2Fuel T.
 Proof.
@@ -813,6 +1024,9 @@ Definition stepE {T} (Ops : NumOps T) N xv (E : evals T) : state T -> op T -> st
   step Ops N xv (ev_seg E) (ev_deriv E) (ev_integ E) (ev_ext E) (ev_glob E).
 Definition runE {T} (Ops : NumOps T) N xv (E : evals T) : list (op T) -> state T -> state T :=
   run Ops N xv (ev_seg E) (ev_deriv E) (ev_integ E) (ev_ext E) (ev_glob E).
+
+Definition traceE {T} (Ops : NumOps T) N xv (E : evals T) : list (op T) -> state T -> list (out T) :=
+  trace Ops N xv (ev_seg E) (ev_deriv E) (ev_integ E) (ev_ext E) (ev_glob E).
 
 (** ** Non-vacuity: an instance with decidable comparisons (the integers) on which the model computes *)
 Definition ZOps : NumOps Z :=
